@@ -96,7 +96,17 @@ func (x *Exec) collectWrites(ws *writeSet, nodes ...ast.Node) {
 					}
 				}
 			case *ast.CallExpr:
-				if x.callMayWriteHeap(a) {
+				isClosure := false
+				if id, ok := a.Fun.(*ast.Ident); ok {
+					if o := x.objOf(id); o != nil {
+						for fi := len(x.frames) - 1; fi >= 0; fi-- {
+							if x.frames[fi].closures[o] != nil {
+								isClosure = true
+							}
+						}
+					}
+				}
+				if !isClosure && x.callMayWriteHeap(a) {
 					ws.heap = true
 				}
 				// method calls with pointer receivers on addressable locals, and &x arguments, may write x
